@@ -17,7 +17,7 @@
 extern "C" {
 // classify sanitizer hits by exit code; leaks are expected (abandoned walker instances)
 __attribute__((used, visibility("default"))) const char *__asan_default_options() {
-  return "exitcode=77:detect_leaks=0:abort_on_error=0:handle_sigfpe=1:allocator_may_return_null=1:max_allocation_size_mb=1024:detect_stack_use_after_return=0";
+  return "exitcode=77:detect_leaks=0:abort_on_error=0:handle_sigfpe=1:allocator_may_return_null=1:max_allocation_size_mb=256:detect_stack_use_after_return=0";
 }
 __attribute__((used, visibility("default"))) const char *__ubsan_default_options() {
   return "print_stacktrace=1:halt_on_error=1:exitcode=77";
@@ -120,6 +120,18 @@ static std::string classify_death(int status, std::string const &errtxt) {
     std::string file = loc.substr(0, col);
     size_t sl = file.rfind('/');
     if (sl != std::string::npos) file = file.substr(sl + 1);
+    // a report located in the runtime or the standard library is attributed to the first frame inside the library under test
+    if (file.find("asan_") == 0 || file.find("stl_") == 0 || file.find("sanitizer") != std::string::npos || file.find(".tcc") != std::string::npos || file.find("new_allocator") != std::string::npos) {
+      size_t fr = errtxt.find("/repo/src/");
+      if (fr != std::string::npos) {
+        size_t ls = errtxt.rfind('\n', fr); ls = ls == std::string::npos ? 0 : ls + 1;
+        std::string frame = errtxt.substr(ls, errtxt.find('\n', fr) - ls);
+        size_t in = frame.find(" in "), f2 = frame.find("/repo/src/");
+        std::string fn = in != std::string::npos ? frame.substr(in + 4, frame.find_first_of("( ", in + 4) - in - 4) : "";
+        std::string fl = frame.substr(f2 + 10); fl = fl.substr(0, fl.find(':'));
+        file = fl; func = fn;
+      }
+    }
     sig = san + ":" + kind + ":" + file + ":" + func;
     // UBSan: add the message class
     size_t re = errtxt.find("runtime error: ");
@@ -132,6 +144,23 @@ static std::string classify_death(int status, std::string const &errtxt) {
       sig += ":" + cls;
     }
     return sig;
+  }
+  {
+    // UBSan without a summary line: "<file>:<line>:<col>: runtime error: <message>" followed by the stack
+    size_t re = errtxt.find(": runtime error: ");
+    if (re != std::string::npos) {
+      size_t ls = errtxt.rfind('\n', re); ls = ls == std::string::npos ? 0 : ls + 1;
+      std::string loc = errtxt.substr(ls, re - ls);
+      size_t col = loc.find(':'); std::string file = loc.substr(0, col);
+      size_t sl = file.rfind('/'); if (sl != std::string::npos) file = file.substr(sl + 1);
+      size_t ee = errtxt.find('\n', re);
+      std::string msg = errtxt.substr(re + 17, ee == std::string::npos ? std::string::npos : ee - re - 17), cls, func;
+      for (char ch : msg) { if (isdigit((unsigned char)ch) || ch == '-' || ch == '.') continue; cls += ch; }
+      if (cls.size() > 60) cls.resize(60);
+      size_t f0 = errtxt.find("#0 ", re);
+      if (f0 != std::string::npos) { size_t in = errtxt.find(" in ", f0), fe = errtxt.find_first_of("(\n ", in == std::string::npos ? f0 : in + 4); if (in != std::string::npos && in < errtxt.find('\n', f0)) func = errtxt.substr(in + 4, fe - in - 4); }
+      return "UBSan:" + file + ":" + func + ":" + cls;
+    }
   }
   if (errtxt.find("terminate called") != std::string::npos) {
     size_t q = errtxt.find("terminate called");
@@ -195,7 +224,7 @@ static RunResult exec_plan_in_child(Property &P, J const &plan, int timeout_s, s
   int status = 0;
   waitpid(pid, &status, 0);
   RunResult r;
-  if (timed_out) { r.violation = true; r.oracle = "hang"; r.signature = "timeout"; r.detail = "no result within " + std::to_string(timeout_s) + " s"; return r; }
+  if (timed_out) { r.violation = true; r.oracle = "hang"; r.signature = "timeout"; r.detail = "no result within " + std::to_string(timeout_s) + " s"; if (P.plan_features) r.features = P.plan_features(plan); return r; }
   J j;
   if (WIFEXITED(status) && WEXITSTATUS(status) == 0 && J::parse(buf, j) && j.is_obj()) return RunResult::from_json(j);
   std::string err = tail_of_file(errpath);
@@ -203,6 +232,7 @@ static RunResult exec_plan_in_child(Property &P, J const &plan, int timeout_s, s
   size_t p = err.find("ERROR: ");
   if (p == std::string::npos) p = err.find("runtime error");
   r.detail = p != std::string::npos ? err.substr(p, 600) : err.substr(err.size() > 600 ? err.size() - 600 : 0);
+  if (P.plan_features) r.features = P.plan_features(plan);
   return r;
 }
 
@@ -304,6 +334,7 @@ static std::vector<RunResult> exec_many(Property &P, std::vector<J> const &plans
     if (hung && timed_out) { r.violation = true; r.oracle = "hang"; r.signature = "timeout"; }
     else if (WIFEXITED(status) && WEXITSTATUS(status) == 0 && J::parse(sl[k].buf, j) && j.is_obj()) r = RunResult::from_json(j);
     else { r.violation = true; r.oracle = "crash"; r.signature = classify_death(status, tail_of_file(sl[k].errpath)); }
+    if (r.violation && (r.oracle == "crash" || r.oracle == "hang") && P.plan_features) r.features = P.plan_features(plans[from + k]);
     out[k] = r;
   }
   return out;
@@ -650,6 +681,7 @@ static int cmd_check(Property &P, bool thorough, int jobs, long runs_override, d
     groups++;
     J plan = P.gen(B.crashed_seeds[i], thorough);
     RunResult r; r.violation = true; r.oracle = "crash"; r.signature = B.crash_sigs[i];
+    if (P.plan_features) r.features = P.plan_features(plan);
     int x = report_violation(P, B.crashed_seeds[i], plan, r, known, known_printed, reported_fine, n_viol);
     rc = std::max(rc, x);
   }
